@@ -24,8 +24,8 @@ Definition WSCH : list N := [32; 9; 10; 13; 12]%N.
 Definition is_ws (c : N) : bool := existsb (N.eqb c) WSCH.
 
 (* characters with a meaning for the tag scanner; a plain token (variable, number, filter name, flag, tag name)
-   contains none of them:   | : , ] } [ { = * ( ) /  and the two quote characters *)
-Definition SPECIALS : list N := [124; 58; 44; 93; 125; 91; 123; 61; 39; 34; 42; 40; 41; 47]%N.
+   contains none of them:   | : , ] } [ { = * ( )  and the two quote characters *)
+Definition SPECIALS : list N := [124; 58; 44; 93; 125; 91; 123; 61; 39; 34; 42; 40; 41]%N.
 Definition var_char (c : N) : bool := negb (existsb (N.eqb c) (WSCH ++ SPECIALS)).
 (* a token does not start with `.` (three of them are the spread operator) nor with `_` (`_(` opens a translation;
    Django itself refuses variables that start with an underscore) *)
@@ -323,12 +323,15 @@ Definition print (lay : layout) (tag : str) (a : arglist) : str :=
 Definition flags_of (items : list item) : list str :=
   flat_map (fun it => match it with IFlag f => [f] | _ => [] end) items.
 
-(* the serialised text of a positional leaf must not be a flag name (it would BE the flag) *)
+(* the serialised text of a positional leaf must not be a flag name (it would BE the flag), and a leaf whose text
+   is a lone `/` would be the self-closing slash *)
+Definition not_slash (v : sval) : bool :=
+  match v with SLeaf l => negb (str_eqb (canon_leaf l) [47%N]) | _ => true end.
 Definition item_ok (allowed : list str) (it : item) : bool :=
   match it with
-  | IPos v => val_ok v && Nat.leb (vdepth v) 100
+  | IPos v => val_ok v && Nat.leb (vdepth v) 100 && not_slash v
               && match v with SLeaf l => negb (str_in (canon_leaf l) allowed) | _ => true end
-  | IKw k v => key_ok k && val_ok v && Nat.leb (vdepth v) 100
+  | IKw k v => key_ok k && val_ok v && Nat.leb (vdepth v) 100 && not_slash v
   | ISpread v => val_ok v && Nat.leb (vdepth v) 100
                  && match v with SLeaf l => spreadable l | _ => true end
   | IFlag f => str_in f allowed
@@ -338,7 +341,7 @@ Fixpoint nodup_str (l : list str) : bool :=
   match l with [] => true | x :: r => negb (str_in x r) && nodup_str r end.
 
 Definition arglist_ok (tag : str) (allowed : list str) (a : arglist) : bool :=
-  tok_ok tag && forallb tok_ok allowed && forallb (item_ok allowed) (al_items a)
+  tok_ok tag && forallb tok_ok allowed && negb (str_in [47%N] allowed) && forallb (item_ok allowed) (al_items a)
   && nodup_str (flags_of (al_items a)).
 
 (* parameters in call order: (None, v) positional, (Some k, v) keyword; flags contribute nothing *)
